@@ -14,13 +14,13 @@ BITS_Q = [0, 1, 61, 62, 63, 64, 65, 127, 128]
 BITS_T = BITS_Q + [2, 60, 126, 129, 191, 192, 200, 300]
 
 
-FIX_Q = [0, -1, 1, 5, -6, (1 << 61) - 1, -(1 << 61)]
-FIX_T = FIX_Q + [2, -2, 1 << 31, (1 << 32) - 1, 1 << 32, -(1 << 32), (1 << 61) - 2, 0x1555555555555555, -0x0aaaaaaaaaaaaaab,
-                 1 << 60, -(1 << 60) - 1]
+FIX_Q = [0, -1, 1, 5, -6, (1 << 62) - 1, -(1 << 62)]
+FIX_T = FIX_Q + [2, -2, 1 << 31, (1 << 32) - 1, 1 << 32, -(1 << 32), (1 << 62) - 2, 0x1555555555555555, -0x0aaaaaaaaaaaaaab,
+                 1 << 61, -(1 << 61) - 1]
 
 
 def cval(v):
-    return '(%dL)' % v if v > -(1 << 61) else '(-%dL-1)' % ((1 << 61) - 1)
+    return '(%dL)' % v if v > -(1 << 62) else '(-%dL-1)' % ((1 << 62) - 1)
 
 
 def queries(tier):
